@@ -95,7 +95,7 @@ chk("C01",
     "6/C01")
 chk("C02",
     "Props/C02.lean: for a keyword whose first probe label is not a stored label (every keyword outside the database unless the PRF collides), "
-    "Search completes normally with the empty result - no exception, no foreign or padding identifiers (proved for all nine schemes, each under the hypothesis that its probe labels are not stored - evaluated by the driver on every recorded run). Tie: "
+    "Search completes normally with the empty result - no exception, no foreign or padding identifiers (proved for all nine schemes, each under the hypothesis that its probe labels are not stored - evaluated by the driver on every recorded run; for SSE2 also outright, SSE2.absent_correct: every accepted configuration, key, valid database and valid keyword outside it - token generation returns and the result is empty, freshness derived from PRP injectivity). Tie: "
     "the scheme correspondence with absent keywords adversarially close to stored ones (prefix, suffix, NUL-extended, one bit flipped) in every "
     "case, plus the direct oracle on the real code for all nine schemes.",
     SCHEME_TRUST,
